@@ -14,3 +14,5 @@ open MdVerif.RefText
 #print axioms C15_noref_of_start
 #print axioms C15_mix_line
 #print axioms C15_mix_loop
+#print axioms C15_label_linebreak
+#print axioms C15_label_linebreak_variant
